@@ -26,8 +26,12 @@
 EXTENDS Integers, Sequences, FiniteSets
 
 CONSTANTS Nodes,       \* data nodes (integers)
-          R,           \* configured replication factor
+          R,           \* configured replication factor (at the start)
           InitK,       \* number of replicas of the initial layout
+          Parts,       \* partitions of the namespace (they share the data nodes)
+          Writers,     \* coordinators that may write (2 = a PD leader fail-over in which the old
+                       \* leader keeps acting on its stale view for a while)
+          RSet,        \* replication factors ChangeFactor may switch to ({R} = fixed factor)
           MaxEpoch,    \* bound: number of metadata writes explored
           MaxID        \* bound: largest raft id explored
 \* guards that can be switched off one at a time (spec mutants; all TRUE = the design)
@@ -39,12 +43,16 @@ CONSTANTS G_OnePending,    \* no removal is marked while another one is pending
           G_FreshID,       \* a new replica gets maxid+1 and maxid is stored with it
           G_Distinct,      \* a node is never added twice
           G_LeftRaft,      \* a removal is only finished after the replica left the raft group
-          G_CAS            \* a write from a stale copy of the record fails
+          G_CAS,           \* a write from a stale copy of the record fails
+          G_Surplus        \* a balance / check round only removes a replica of a live node when the
+                           \* partition has more in-sync replicas than the factor (add first, then remove)
 CONSTANTS MaxDown, MaxUnsynced  \* environment bounds (number of nodes): how many nodes may be down / answer
                                 \* "not in sync" at the same time (N = unrestricted)
 CONSTANT CountCalls        \* TRUE: coordinator calls are counted (every call is a visible step even if
                            \* it decides to do nothing - used when behaviours are generated for replay);
                            \* FALSE for exhaustive checking
+
+VARIABLE rf           \* the replication factor in force (namespace meta; ChangeFactor changes it)
 
 Range(s) == {s[i] : i \in DOMAIN s}
 RemoveAt(s, x) == SelectSeq(s, LAMBDA y : y # x)
@@ -52,7 +60,7 @@ RemoveAt(s, x) == SelectSeq(s, LAMBDA y : y # x)
 \* ------------------------------------------------------------ pure operators
 NodeSet(m) == Range(m.nodes)
 ISR(m)     == NodeSet(m) \ m.rem
-Quorum(k)  == 2 * k > R                 \* k is a strict majority of the replication factor
+Quorum(k)  == 2 * k > rf                \* k is a strict majority of the replication factor in force
 
 \* the environment as the coordinator can observe it
 \*   alive    : nodes registered / answering
@@ -87,7 +95,9 @@ AddBroken(m, n, env) ==
   \cup If(G_NoAddPending => m.rem = {}, "Add:RemovalPending")
   \cup If(G_SyncAdd => ISRFullReady(m, env), "Add:ReplicasNotInSync")
   \* at most one surplus replica (a move adds before it removes)
-  \cup If(Cardinality(ISR(m)) <= R, "Add:AlreadySurplus")
+  \cup If(Cardinality(ISR(m)) <= rf, "Add:AlreadySurplus")
+  \* (only matters when the factor was raised meanwhile) the result is a strict majority of the factor
+  \cup If(G_Quorum => Quorum(Cardinality(ISR(m)) + 1), "Add:ResultNotAMajority")
 CanAdd(m, n, env) == AddBroken(m, n, env) = {}
 NewID(m) == IF G_FreshID THEN m.maxid + 1 ELSE m.maxid
 AddOf(m, n) == [m EXCEPT !.nodes = Append(@, n),
@@ -99,6 +109,7 @@ FinishBroken(m, n, env) ==
   \* every remaining replica was asked and none still reports the replica as a raft member
   \cup If(G_LeftRaft => ((\A r \in ISR(m) : r \in env.alive) /\ ~InRaft(m, n, env)), "Finish:StillInRaftGroup")
   \cup If(ISR(m) # {}, "Finish:LastReplica")
+  \cup If(G_Quorum => Quorum(Cardinality(ISR(m))), "Finish:RemainingNotAMajority")
 CanFinish(m, n, env) == FinishBroken(m, n, env) = {}
 FinishOf(m, n) == [m EXCEPT !.nodes = RemoveAt(@, n),
                             !.ids = [x \in DOMAIN @ \ {n} |-> @[x]],
@@ -120,114 +131,153 @@ RecordBroken(m) == If(AtMostOneRemoving(m), "C18:MoreThanOneRemoving")
                    \cup (IF IdsWellFormed(m) THEN If(QuorumKept(m), "C18:RemainingNotAMajority") ELSE {})
 
 \* ----------------------------------------------------------------- behaviour
-VARIABLES meta,      \* the record in the store
-          snap,      \* a copy the coordinator read earlier (possibly stale)
-          alive, unsynced, members,
-          usedIDs,   \* history: every raft id ever handed out
-          bad,       \* history: names of action clauses of C18 that were broken
+VARIABLES metas,     \* partition -> the record in the store
+          views,     \* writer -> partition -> the copy that coordinator read earlier (possibly stale)
+          alive, unsynced,
+          mems,      \* partition -> raft membership as reported by answering nodes
+          used,      \* history: partition -> every raft id ever handed out
+          bad,       \* history: names of clauses that a write broke
           calls      \* number of coordinator calls (only counted if CountCalls)
-cvars == <<meta, snap, alive, unsynced, members, usedIDs, bad, calls>>
+cvars == <<metas, views, alive, unsynced, mems, used, bad, calls, rf>>
 Called == calls' = IF CountCalls THEN calls + 1 ELSE calls
 
-Env == [alive |-> alive, unsynced |-> unsynced, members |-> members]
-Copy(src) == IF src = "snap" THEN snap ELSE meta
+EnvP(p) == [alive |-> alive, unsynced |-> unsynced, members |-> mems[p]]
+Copy(w, p, src) == IF src = "snap" THEN views[w][p] ELSE metas[p]
 
 \* "starting from any valid layout": InitK replicas (a strict majority of R, at most R) on nodes
 \* 1..InitK - which nodes is irrelevant by symmetry; InitK < R is a partition that lost replicas
 \* earlier (their ids InitK+1..R are used up)
-ASSUME InitK \in 1..R /\ 2 * InitK > R
+ASSUME InitK \in 1..R /\ 2 * InitK > R /\ R \in RSet
 InitNodes == [i \in 1..InitK |-> i]
-CInit == /\ meta = [nodes |-> InitNodes, ids |-> [n \in 1..InitK |-> n], rem |-> {}, maxid |-> R, epoch |-> 1]
-         /\ snap = meta
+InitRec == [nodes |-> InitNodes, ids |-> [n \in 1..InitK |-> n], rem |-> {}, maxid |-> R, epoch |-> 1]
+CInit == /\ metas = [p \in Parts |-> InitRec]
+         /\ views = [w \in Writers |-> [p \in Parts |-> InitRec]]
          /\ alive = Nodes /\ unsynced = {}
-         /\ members = [n \in 1..InitK |-> n]
-         /\ usedIDs = 1..R
+         /\ mems = [p \in Parts |-> [n \in 1..InitK |-> n]]
+         /\ used = [p \in Parts |-> 1..R]
          /\ bad = {}
          /\ calls = 0
+         /\ rf = R
 
-\* compare-and-swap of the record computed from copy c
-Write(c, new, flags) ==
-  IF c.epoch = meta.epoch \/ ~G_CAS
-  THEN /\ meta' = [new EXCEPT !.epoch = meta.epoch + 1]
-       /\ usedIDs' = usedIDs \cup {new.ids[x] : x \in DOMAIN new.ids}
-       /\ bad' = bad \cup flags
-            \cup (IF \E x \in DOMAIN new.ids : (x \notin DOMAIN meta.ids \/ meta.ids[x] # new.ids[x])
-                                                /\ new.ids[x] \in usedIDs
+\* compare-and-swap of the record of partition p computed from copy c.  Every clause of C18 that
+\* the written record breaks - relative to the factor in force now - is remembered in `bad`.
+Write(p, c, new, flags) ==
+  IF c.epoch = metas[p].epoch \/ ~G_CAS
+  THEN /\ metas' = [metas EXCEPT ![p] = [new EXCEPT !.epoch = metas[p].epoch + 1]]
+       /\ used' = [used EXCEPT ![p] = @ \cup {new.ids[x] : x \in DOMAIN new.ids}]
+       /\ bad' = bad \cup flags \cup RecordBroken(new)
+            \cup (IF \E x \in DOMAIN new.ids : (x \notin DOMAIN metas[p].ids \/ metas[p].ids[x] # new.ids[x])
+                                                /\ new.ids[x] \in used[p]
                   THEN {"IdReused"} ELSE {})
-  ELSE UNCHANGED <<meta, usedIDs, bad>>      \* CASFail: nothing is written
+  ELSE UNCHANGED <<metas, used, bad>>      \* CASFail: nothing is written
 
 \* history flags for the action clauses (they can only fire in a mutant)
-MarkFlags(c, n) == (IF MajorityUnreachable(c, Env) THEN {"MarkedWhenMajorityUnreachable"} ELSE {})
-AddFlags(c, n)  == (IF ~ISRFullReady(c, Env) THEN {"AddedWhenNotInSync"} ELSE {})
-                   \cup (IF c.rem # {} THEN {"AddedWhileRemovalPending"} ELSE {})
+MarkFlags(p, c, n) == (IF MajorityUnreachable(c, EnvP(p)) THEN {"MarkedWhenMajorityUnreachable"} ELSE {})
+AddFlags(p, c, n)  == (IF ~ISRFullReady(c, EnvP(p)) THEN {"AddedWhenNotInSync"} ELSE {})
+                      \cup (IF c.rem # {} THEN {"AddedWhileRemovalPending"} ELSE {})
+\* a move made by a balance or check round: add first, remove only the surplus
+SurplusOK(c, n)    == (G_Surplus /\ n \in alive) => Cardinality(ISR(c)) > rf
+RoundFlags(c, n)   == (IF n \in alive /\ Cardinality(ISR(c)) <= rf THEN {"RoundReducedInSync"} ELSE {})
 
-DoMark(c, n)   == CanMark(c, n, Env) /\ Write(c, MarkOf(c, n), MarkFlags(c, n))
-DoAdd(c, n)    == CanAdd(c, n, Env) /\ Write(c, AddOf(c, n), AddFlags(c, n))
-DoFinish(c, n) == CanFinish(c, n, Env) /\ Write(c, FinishOf(c, n), {})
-Noop           == UNCHANGED <<meta, usedIDs, bad>>
+DoMark(p, c, n)   == CanMark(c, n, EnvP(p)) /\ Write(p, c, MarkOf(c, n), MarkFlags(p, c, n))
+DoRoundMark(p, c, n) == /\ CanMark(c, n, EnvP(p)) /\ SurplusOK(c, n)
+                        /\ Write(p, c, MarkOf(c, n), MarkFlags(p, c, n) \cup RoundFlags(c, n))
+DoAdd(p, c, n)    == CanAdd(c, n, EnvP(p)) /\ Write(p, c, AddOf(c, n), AddFlags(p, c, n))
+DoFinish(p, c, n) == CanFinish(c, n, EnvP(p)) /\ Write(p, c, FinishOf(c, n), {})
+Noop              == UNCHANGED <<metas, used, bad>>
+Rest              == Called /\ UNCHANGED <<views, alive, unsynced, mems, rf>>
 
 \* -- coordinator entry points (what the driver can call).  Doing nothing is always allowed.
 \* Migrate: the reaction to lost replicas - mark a lost one, or add a replacement
-Migrate(src) ==
-  /\ LET c == Copy(src) IN
-       \/ \E n \in NodeSet(c) \ alive : DoMark(c, n)
-       \/ \E n \in Nodes : Cardinality(NodeSet(c)) < R /\ DoAdd(c, n)
+Migrate(w, p, src) ==
+  /\ LET c == Copy(w, p, src) IN
+       \/ \E n \in NodeSet(c) \ alive : DoMark(p, c, n)
+       \/ \E n \in Nodes : Cardinality(NodeSet(c)) < rf /\ DoAdd(p, c, n)
        \/ Noop
-  /\ Called /\ UNCHANGED <<snap, alive, unsynced, members>>
-\* planned move: add a replica / mark a replica of a ready group
-PlanAdd(n, src) ==
-  /\ LET c == Copy(src) IN DoAdd(c, n) \/ Noop
-  /\ Called /\ UNCHANGED <<snap, alive, unsynced, members>>
-PlanRemove(n, src) ==
-  /\ LET c == Copy(src) IN (ISRFullReady(c, Env) /\ DoMark(c, n)) \/ Noop
-  /\ Called /\ UNCHANGED <<snap, alive, unsynced, members>>
-Finish(src) ==
-  /\ LET c == Copy(src) IN (\E n \in c.rem : DoFinish(c, n)) \/ Noop
-  /\ Called /\ UNCHANGED <<snap, alive, unsynced, members>>
-\* a check round on the current record is a sequence of the steps above; the model only needs a
-\* label for it (the driver runs the real doCheckNamespaces): here it is one step of any kind
-CheckRound ==
-  /\ \/ \E n \in meta.rem : DoFinish(meta, n)
-     \/ \E n \in NodeSet(meta) : DoMark(meta, n)
-     \/ \E n \in Nodes : Cardinality(NodeSet(meta)) < R /\ DoAdd(meta, n)
-     \/ Noop
-  /\ Called /\ UNCHANGED <<snap, alive, unsynced, members>>
-Snapshot == snap' = meta /\ UNCHANGED <<meta, alive, unsynced, members, usedIDs, bad, calls>>
+  /\ Rest
+\* decision functions called directly: add a replica / mark a replica of a ready group
+PlanAdd(w, p, n, src) ==
+  /\ LET c == Copy(w, p, src) IN DoAdd(p, c, n) \/ Noop
+  /\ Rest
+PlanRemove(w, p, n, src) ==
+  /\ LET c == Copy(w, p, src) IN (ISRFullReady(c, EnvP(p)) /\ DoMark(p, c, n)) \/ Noop
+  /\ Rest
+Finish(w, p, src) ==
+  /\ LET c == Copy(w, p, src) IN (\E n \in c.rem : DoFinish(p, c, n)) \/ Noop
+  /\ Rest
+\* a check round (doCheckNamespaces) on the current records is a sequence of steps on any of the
+\* partitions; the model only needs a label for it: here it is one step of any kind
+RoundStep(p) == \/ \E n \in metas[p].rem : DoFinish(p, metas[p], n)
+                \/ \E n \in NodeSet(metas[p]) : DoRoundMark(p, metas[p], n)
+                \/ \E n \in Nodes : Cardinality(NodeSet(metas[p])) < rf /\ DoAdd(p, metas[p], n)
+CheckRound(w) ==
+  /\ (\E p \in Parts : RoundStep(p)) \/ Noop
+  /\ Rest
+\* a balance round (rebalanceNamespace) moves one replica of one partition: it adds the new
+\* replica and, once that is in sync, marks the old one - never the other way round
+BalanceStep(p) == \/ \E n \in Nodes : DoAdd(p, metas[p], n)
+                  \/ \E n \in NodeSet(metas[p]) \cap alive :
+                        ISRFullReady(metas[p], EnvP(p)) /\ DoRoundMark(p, metas[p], n)
+BalanceRound(w) ==
+  /\ (\E p \in Parts : BalanceStep(p)) \/ Noop
+  /\ Rest
+Snapshot(w, p) == /\ views' = [views EXCEPT ![w][p] = metas[p]]
+                  /\ UNCHANGED <<metas, alive, unsynced, mems, used, bad, calls, rf>>
 
 \* -- environment
+AllNodeSets == UNION {NodeSet(metas[p]) : p \in Parts}
 NodeDown(n) == n \in alive /\ Cardinality(Nodes \ alive) < MaxDown /\ alive' = alive \ {n} /\ unsynced' = unsynced \ {n}
-               /\ UNCHANGED <<meta, snap, members, usedIDs, bad, calls>>
+               /\ UNCHANGED <<metas, views, mems, used, bad, calls, rf>>
 NodeUp(n)   == n \notin alive /\ alive' = alive \cup {n}
-               /\ UNCHANGED <<meta, snap, unsynced, members, usedIDs, bad, calls>>
-SyncLost(n) == n \in NodeSet(meta) \cap alive /\ n \notin unsynced /\ Cardinality(unsynced) < MaxUnsynced /\ unsynced' = unsynced \cup {n}
-               /\ UNCHANGED <<meta, snap, alive, members, usedIDs, bad, calls>>
+               /\ UNCHANGED <<metas, views, unsynced, mems, used, bad, calls, rf>>
+SyncLost(n) == n \in AllNodeSets \cap alive /\ n \notin unsynced /\ Cardinality(unsynced) < MaxUnsynced /\ unsynced' = unsynced \cup {n}
+               /\ UNCHANGED <<metas, views, alive, mems, used, bad, calls, rf>>
 SyncBack(n) == n \in unsynced /\ unsynced' = unsynced \ {n}
-               /\ UNCHANGED <<meta, snap, alive, members, usedIDs, bad, calls>>
-\* the raft group follows the metadata: a current replica joins, a marked/dropped one leaves
-RaftJoin(n) == /\ n \in ISR(meta) /\ ~InRaft(meta, n, Env)
-               /\ members' = [x \in DOMAIN members \cup {n} |-> IF x = n THEN meta.ids[n] ELSE members[x]]
-               /\ UNCHANGED <<meta, snap, alive, unsynced, usedIDs, bad, calls>>
-RaftLeave(n) == /\ n \in DOMAIN members /\ (n \notin ISR(meta) \/ ~InRaft(meta, n, Env))
-                /\ members' = [x \in DOMAIN members \ {n} |-> members[x]]
-                /\ UNCHANGED <<meta, snap, alive, unsynced, usedIDs, bad, calls>>
+               /\ UNCHANGED <<metas, views, alive, mems, used, bad, calls, rf>>
+\* the raft group of a partition follows the metadata: a current replica joins, a marked/dropped one leaves
+RaftJoin(p, n) == /\ n \in ISR(metas[p]) /\ ~InRaft(metas[p], n, EnvP(p))
+                  /\ mems' = [mems EXCEPT ![p] = [x \in DOMAIN @ \cup {n} |-> IF x = n THEN metas[p].ids[n] ELSE @[x]]]
+                  /\ UNCHANGED <<metas, views, alive, unsynced, used, bad, calls, rf>>
+RaftLeave(p, n) == /\ n \in DOMAIN mems[p] /\ (n \notin ISR(metas[p]) \/ ~InRaft(metas[p], n, EnvP(p)))
+                   /\ mems' = [mems EXCEPT ![p] = [x \in DOMAIN @ \ {n} |-> @[x]]]
+                   /\ UNCHANGED <<metas, views, alive, unsynced, used, bad, calls, rf>>
+\* the operator changes the replication factor (ChangeNamespaceMetaParam refuses when fewer data
+\* nodes than the new factor are alive); records written earlier are judged by the factor then in force
+ChangeFactor(r) == /\ r \in RSet /\ r # rf /\ Cardinality(alive) >= r
+                   /\ rf' = r
+                   /\ UNCHANGED <<metas, views, alive, unsynced, mems, used, bad, calls>>
 
-CNext == \/ \E s \in {"cur", "snap"} : Migrate(s) \/ Finish(s)
-         \/ \E n \in Nodes, s \in {"cur", "snap"} : PlanAdd(n, s) \/ PlanRemove(n, s)
-         \/ CheckRound \/ Snapshot
-         \/ \E n \in Nodes : NodeDown(n) \/ NodeUp(n) \/ SyncLost(n) \/ SyncBack(n) \/ RaftJoin(n) \/ RaftLeave(n)
+CNext == \/ \E w \in Writers, p \in Parts, s \in {"cur", "snap"} : Migrate(w, p, s) \/ Finish(w, p, s)
+         \/ \E w \in Writers, p \in Parts, n \in Nodes, s \in {"cur", "snap"} : PlanAdd(w, p, n, s) \/ PlanRemove(w, p, n, s)
+         \/ \E w \in Writers : CheckRound(w) \/ BalanceRound(w)
+         \/ \E w \in Writers, p \in Parts : Snapshot(w, p)
+         \/ \E n \in Nodes : NodeDown(n) \/ NodeUp(n) \/ SyncLost(n) \/ SyncBack(n)
+         \/ \E p \in Parts, n \in Nodes : RaftJoin(p, n) \/ RaftLeave(p, n)
+         \/ \E r \in RSet : ChangeFactor(r)
 
 CSpec == CInit /\ [][CNext]_cvars
 
-Bounded == meta.epoch <= MaxEpoch /\ meta.maxid <= MaxID
+Bounded == \A p \in Parts : metas[p].epoch <= MaxEpoch /\ metas[p].maxid <= MaxID
 
-\* the five clauses of C18
-C18_OneRemoving       == AtMostOneRemoving(meta)
-C18_QuorumDistinct    == QuorumKept(meta) /\ DistinctNodes(meta)
+\* the five clauses of C18, for every partition.  The record clauses are judged when a record is
+\* written, relative to the factor then in force (`bad`); with a fixed factor they are also state
+\* invariants of the stored records.
+FixedFactor == RSet = {R}
+C18_OneRemoving       == /\ "C18:MoreThanOneRemoving" \notin bad
+                         /\ \A p \in Parts : AtMostOneRemoving(metas[p])
+C18_QuorumDistinct    == /\ bad \cap {"C18:RemainingNotAMajority", "C18:NodesNotDistinct"} = {}
+                         /\ \A p \in Parts : DistinctNodes(metas[p]) /\ (FixedFactor => QuorumKept(metas[p]))
 C18_AddOneWhenInSync  == bad \cap {"AddedWhenNotInSync", "AddedWhileRemovalPending"} = {}
-C18_IdsNeverReused    == IdsWellFormed(meta) /\ "IdReused" \notin bad
+C18_IdsNeverReused    == /\ bad \cap {"IdReused", "C18:IdsMalformed"} = {}
+                         /\ \A p \in Parts : IdsWellFormed(metas[p])
 C18_NoMarkUnreachable == "MarkedWhenMajorityUnreachable" \notin bad
+\* a balance / check round never reduces the number of in-sync replicas below the factor
+C18x_RoundKeepsInSync == "RoundReducedInSync" \notin bad
+\* what is handed to the placement function as the previous layout (the in-sync list of every
+\* partition) never contains a node twice
+C18x_PlacementInputDistinct == \A p \in Parts : Cardinality(ISR(metas[p])) = Len(SelectSeq(metas[p].nodes, LAMBDA x : x \notin metas[p].rem))
 \* auxiliary (not a clause of C18; it is what G_LeftRaft protects): the metadata never forgets a
 \* node that the raft group still counts as a member, so the quorum arithmetic above is about
 \* the real group
-Aux_MembersKnown == DOMAIN members \subseteq NodeSet(meta)
+Aux_MembersKnown == \A p \in Parts : DOMAIN mems[p] \subseteq NodeSet(metas[p])
 =============================================================================
